@@ -15,6 +15,7 @@ def runCase (c : Case) : List String :=
   | "pool" => runPool c.lines
   | "soft" => runSolve c.lines
   | "lazy" => runSolve c.lines
+  | "cancel" => runSolve c.lines
   | "conflictfree" => runSolve c.lines
   | f => [s!"unknown-family {f}"]
 
